@@ -495,13 +495,36 @@ bool gen_edit(Tape &t, const Model &m, EditGen &g, Op &o, int force_kind) {
     case 10: {
       if (m.n() == 0) break;
       o = Op("chgobj");
-      o.I(t.below((uint32_t)m.n())).N(gen_num(t, big));
+      int j = (int)t.below((uint32_t)m.n());
+      Q v = gen_num(t, big);
+      // borrowed values: a value the object already stores somewhere -- zero, the column's own coefficient (an edit
+      // that changes nothing), another column's coefficient, the entry with the same index in another array --
+      // is where "nothing changed, keep the solution" shortcuts go wrong
+      if (t.chance(1, 3)) {
+        switch (t.below(4)) {
+        case 0: v = 0; break;
+        case 1: v = m.cols[j].obj; break;
+        case 2: v = m.cols[t.below((uint32_t)m.n())].obj; break;
+        default: v = j < m.m() ? m.rows[j].rhs : Q(0); break;
+        }
+      }
+      o.I(j).N(v);
       return true;
     }
     case 11: {
       if (m.m() == 0) break;
       o = Op("chgrhs");
-      o.I(t.below((uint32_t)m.m())).N(gen_num(t, big));
+      int i = (int)t.below((uint32_t)m.m());
+      Q v = gen_num(t, big);
+      if (t.chance(1, 3)) {   // borrowed values, as for chgobj
+        switch (t.below(4)) {
+        case 0: v = 0; break;
+        case 1: v = m.rows[i].rhs; break;
+        case 2: v = m.rows[t.below((uint32_t)m.m())].rhs; break;
+        default: v = i < m.n() ? m.cols[i].obj : Q(0); break;
+        }
+      }
+      o.I(i).N(v);
       return true;
     }
     case 12: {   // chgrange on an R row
